@@ -4,7 +4,8 @@
 
     lock mu        needs not-held, gives held          unlock mu     needs held, gives not-held
     callDest       needs held                          tryLock mu    ok-branch held, fail-branch not-held
-    callSelf (of an interpreted method), ret, retLoad, retFld, raiseJoined, runNow   need not-held
+    callSelf (of an interpreted method), ret, retLoad, retFld, raiseJoined, runNow, runTaken   need not-held
+    (so every teardown — run by Unsubscribe's loop or at once by Add — runs OUTSIDE the producer lock)
     deferUnlock mu, userCb, unknown   rejected         both branches of a test must agree (or return)
     a method body starts not-held and must end not-held (by falling through or by returning)
 
@@ -62,10 +63,10 @@ def chkS (h : Bool) : Stmt → Out
   | .ifLoadEq _ _ a b | .ifFld _ _ a b | .ifCas _ _ _ a b | .ifNil _ a b => (chkL h a).join (chkL h b)
   | .callDest _ => if h then .fall true else .err
   | .callSelf m => if h || !Meth.interpreted.contains m then .err else .fall false
-  | .raiseJoined | .runNow => if h then .err else .fall false
+  | .raiseJoined | .runNow | .runTaken => if h then .err else .fall false
   | .ret | .retLoad _ _ _ | .retFld _ => if h then .err else .ret
   | .userCb _ | .unknown _ => .err
-  | .lock .subMu | .unlock .subMu | .deferUnlock .subMu | .drop _ | .setDone | .swapFinalizers | .runTaken
+  | .lock .subMu | .unlock .subMu | .deferUnlock .subMu | .drop _ | .setDone | .swapFinalizers
   | .appendFinalizer | .recv => .fall h
 def chkL (h : Bool) : List Stmt → Out
   | [] => .fall h
